@@ -24,6 +24,26 @@ EL = "svgdx::element::SvgElement"
 EVALS = (EL + "::resolve_position", EL + "::eval_attributes", "svgdx::transform::process_events")
 
 
+def _flows_to(body, l, depth=8):
+    """locals that (part of) the value in `l` can flow into: moves / copies of the value or of a projection of it,
+    and results of calls that take it as an argument"""
+    out, work = {l}, [(l, depth)]
+    while work:
+        a, d = work.pop()
+        if d <= 0:
+            continue
+        for (b, i, node, how) in R.uses_of(body, a):
+            nl = None
+            if i != R.TERM and "lhs" in node and not node["lhs"][1] and node["rv"].get("k") in ("use", "cast", "ref"):
+                nl = node["lhs"][0]
+            elif i == R.TERM and node.get("k") == "call" and node.get("dest") and not node["dest"][1]:
+                nl = node["dest"][0]
+            if nl is not None and nl not in out:
+                out.add(nl)
+                work.append((nl, d - 1))
+    return out
+
+
 def registration_keys_agree(prog, chk):
     """the id map is written (update_element) and un-written (every context method that removes from it) under the same
     key: if one side evaluates the `id` attribute (eval_attr) before using it, so does the other.  Otherwise an element
@@ -43,12 +63,12 @@ def registration_keys_agree(prog, chk):
                 k = R.origin(b, t["args"][1], carriers=dict(R.CARRIERS, unwrap_or=0, unwrap_or_else=0, unwrap_or_default=0, clone=0, as_str=0, deref=0))
                 evaluated = k[0] == "call" and "fn" in k[2] and Callee(k[2]["fn"]).path == "svgdx::expression::eval_attr"
                 if not evaluated:
-                    # the key may be named first: look for an eval_attr call whose result can flow into the key local
-                    kl = R.origin_local(b, t["args"][1])
-                    if kl is not None:
-                        for (eb, et, ec) in b.call_sites(lambda c: c.path == "svgdx::expression::eval_attr"):
-                            if kl in _moved_to(b, et["dest"][0]) or any(kl in _moved_to(b, node["dest"][0]) for (ub, ui, node, how) in R.uses_of(b, et["dest"][0]) if ui == R.TERM and node.get("k") == "call" and node.get("dest")):
-                                evaluated = True
+                    # the key may be named first: can the result of an eval_attr call flow into the key local (whole, as
+                    # the Ok payload of a match, through unwrap_or / clone ...)?
+                    kls = {R.origin_local(b, t["args"][1]), (op_place(t["args"][1]) or (None,))[0]} - {None}
+                    for (eb, et, ec) in b.call_sites(lambda c: c.path == "svgdx::expression::eval_attr"):
+                        if kls & _flows_to(b, et["dest"][0]):
+                            evaluated = True
                 out.append((b, bb, t, evaluated))
         return out
 
